@@ -298,6 +298,28 @@ def run(replay=None):
     recs = [{'k': 'judge', 'tx': jtx(lib_fields(t)), 'raw': blist(raw), 'signed': bool(k[3] and t.verified is not False and
              all(i.signatures or i.witnesses for i in t.inputs))} for t, raw, k in built]
     verdicts = common.tlc_eval('TxFormatEval', recs, timeout=3000)
+    # sizes of API-built (signed) and re-parsed transactions: size, weight, vsize as BIP141 defines them
+    szv = common.tlc_eval('TxFormatEval', [{'k': 'sizes', 'raw': blist(raw)} for _, raw, _ in built], timeout=3000)
+    for (t, raw, klass), sv in zip(built, szv):
+        if sv['v'] != 'ok':
+            continue
+        size, stripped, weight, vsize = sv['full']
+        for label, obj in (('built', t), ('parsed', Transaction.parse(raw, strict=False, network=klass[0]))):
+            try:
+                obj.size = len(obj.raw())
+                wu = obj.calc_weight_units()
+                got = (obj.size, wu, obj.vsize)
+            except Exception as e:
+                got = ('raised %r' % e,)
+            ck.case(('sizes', label) + klass)
+            if got != (size, weight, vsize):
+                # sizes are not part of the statement of C06 (C07 computes the virtual size it needs from the raw bytes with
+                # the same spec operators): observation, not an alarm
+                mixed = 'segwit transaction with a legacy input' if any(i.witness_type == 'legacy' for i in obj.inputs) else \
+                    'segwit serialization with empty witnesses'
+                ck.beyond('Transaction.calc_weight_units differs from BIP141 (TxFormat!Weight): ' + mixed,
+                          '%s %s transaction %s: (size, weight, vsize) reported %s, BIP141 gives %s (stripped size %d)'
+                          % (label, klass, raw.hex()[:80], got, (size, weight, vsize), stripped))
     for (t, raw, klass), v in zip(built, verdicts):
         ck.case(('api',) + klass)
         ck.traces += 1
